@@ -14,15 +14,28 @@ import (
 func I64() *rapid.Generator[int64] {
 	return rapid.OneOf(
 		rapid.SampledFrom([]int64{0, 1, -1, math.MaxInt64, math.MinInt64, math.MaxInt32, math.MinInt32, 1 << 32}),
+		rapid.SampledFrom(magicI64),
 		rapid.Int64(),
 		rapid.Int64Range(-1000, 1000),
 	)
+}
+
+// magicI64 are values with a meaning somewhere in the container stack which a well-meant
+// sanitising step might rewrite: "unlimited" read-backs of cgroup v1 (the page-rounded
+// maximum) and v2, kernel and runtime defaults, sentinels, powers of two and their
+// neighbours.
+var magicI64 = []int64{
+	9223372036854771712, 9223372036854771711, 9223372036854771713, 9223372036854767616, // cgroup v1 "no limit" and neighbours
+	math.MaxInt64 - 1, -2, 1<<53 - 1, 1 << 53, 1<<63 - 4096, 1<<31 - 1, 1 << 31, 1<<32 - 1, 1<<32 + 1,
+	4096, 4095, 65536, 1 << 20, 1 << 30, 1 << 40, 100000, 1000000, 1024, 1000, 100, 262144, 18446744073709551615 >> 1,
+	2, 6 << 20, 60, 100, -1000, 1000, -999, 999, 0x7ffffffffffff000,
 }
 
 // U64 draws a uint64 with boundary values over-represented.
 func U64() *rapid.Generator[uint64] {
 	return rapid.OneOf(
 		rapid.SampledFrom([]uint64{0, 1, math.MaxUint64, math.MaxInt64, math.MaxInt64 + 1, math.MaxUint32, 1 << 32}),
+		rapid.SampledFrom([]uint64{9223372036854771712, 18446744073709547520, 18446744073709551614, 1 << 53, 4096, 1024, 2, 100, 262144, 10000, 100000, 1000000, 1 << 20, 1 << 30}),
 		rapid.Uint64(),
 		rapid.Uint64Range(0, 1000),
 	)
